@@ -1,11 +1,12 @@
 import Driver.Util
 import Driver.Img
 import GinjaxVerif.Model.C08
+import GinjaxVerif.Model.C08Max
 open Lean Driver GinjaxVerif
 
 /-!
 Driver ops for C08.  Exact ops (`Int` / `Rat`): `c08.avg_pool`, `c08.unpool`, `c08.unpool_conv`,
-`c08.max_pool`, `c08.max_pool_raw`, `c08.norm_sq`, `c08.stats`.  Float ops (the model instantiated
+`c08.max_pool`, `c08.max_pool_raw`, `c08.max_pool_comparator`, `c08.max_pool_scalar`, `c08.norm_sq`, `c08.stats`.  Float ops (the model instantiated
 at `R := Float`, doubles transported as their IEEE bit patterns): `c08.group_norm`, `c08.vn`.
 Blocks are `{"shape":[C, spatial…, d…], "data":[…]}` (`"bits"` for doubles).
 -/
@@ -156,6 +157,23 @@ def handle (op : String) (j : Json) : R Json := do
     checkPatch P B
     if B.k ≠ 0 then throw "use_norm=False needs a scalar image"
     pure (blkJson jInt "data" (maxPoolRaw P B))
+  | "c08.max_pool_scalar" =>
+    -- `max_pool(..., use_norm=False)`: asserts `len(patches) == 1`, i.e. `D^k = 1` (`k = 0` for `D ≥ 2`)
+    let P ← natF j "P"
+    let B ← field j "block" >>= parseBlk d (0 : Int) asInt "data"
+    checkPatch P B
+    if B.k ≠ 0 then throw "use_norm=False needs a scalar image"
+    pure (blkJson jInt "data" (maxPoolScalar P B))
+  | "c08.max_pool_comparator" =>
+    -- `max_pool(..., comparator_image=K)`: asserts `comparator_image.shape == spatial_dims`
+    let P ← natF j "P"
+    let B ← field j "block" >>= parseBlk d (0 : Int) asInt "data"
+    let K ← field j "comparator" >>= parseBlk d (0 : Int) asInt "data"
+    checkPatch P B
+    if K.k ≠ 0 then throw "the comparator must be a scalar image"
+    if K.C ≠ B.C then throw "one comparator image per channel is needed"
+    if fnToList K.dims ≠ fnToList B.dims then throw "comparator_image.shape must equal spatial_dims"
+    pure (blkJson jInt "data" (maxPoolCmp P K B))
   | "c08.norm_sq" =>
     let B ← field j "block" >>= parseBlk d (0 : Int) asInt "data"
     let N : Blk Int d := { C := B.C, dims := B.dims, k := 0, val := fun c y _ => normSq (B.img c) y }
